@@ -827,8 +827,11 @@ func (tree *MutableTree) SaveVersion() ([]byte, int64, error) {
 			if tree.root.isLegacy {
 				// it will update the legacy node to the new format
 				// which ensures the reference node is not a legacy node
-				tree.root.isLegacy = false
-				if err := tree.ndb.SaveNode(tree.root); err != nil {
+				// (a copy is saved: the node object stays the legacy node it is - it is shared through
+				// the node cache under its legacy key, and the copy may be deleted again by a rollback)
+				upgraded := *tree.root
+				upgraded.isLegacy = false
+				if err := tree.ndb.SaveNode(&upgraded); err != nil {
 					return nil, 0, fmt.Errorf("failed to save the reference legacy node: %w", err)
 				}
 			}
